@@ -8,6 +8,7 @@ import Props.C08
 import Props.C15
 import Props.C16
 import Props.C17
+import Proofs.Startup
 /-!
 C03 — delta never crashes or hangs, whatever bytes and options it is given.
 
@@ -142,3 +143,164 @@ theorem line_numbers_never_overflow (bufSize a c : Nat) (ks : List LineNumbers.K
   exact ⟨_, h⟩
 
 end C03.Components
+
+/-! ## Start-up: option values cannot make delta panic before the first input line (task T9)
+
+`DeltaModel/Startup.lean` models what `set_options` / `Config::from` do with the *values* of `--width`,
+`--wrap-max-lines`, `--max-line-length` (side-by-side), `--tabs`, the line-number formats and the panel widths:
+string → number parsing (`usize` / `isize` `from_str`), the `A-B` width expressions, and every `usize` / `isize`
+operation of a build with overflow checks as an explicit `.panic` branch; `fatal(…)` (message, exit status 2) is
+`.fatal`. The arithmetic is not hand-written: `Generated/Startup.lean` holds the expressions the extractor translated
+from `adapt_wrap_max_lines_argument`, `config_max_line_length`, `new_sbs`, `adapt_sbs_data`; "cannot overflow" is the
+interval evaluation `range` of those expressions (`Proofs/StartupExpr.lean: range_sound`, for all values inside the
+intervals). The theorems quantify over ALL argument strings. -/
+namespace C03.StartUp
+open Startup Generated.Startup
+
+/-- `--width`: for every argument text (numbers, `-N`, `A-B`, spaces, signs, garbage, any Unicode) and every terminal
+width that fits `isize` (terminals report `u16`), `parse_width_specifier` returns a width or refuses with a message;
+in particular its `try_into().unwrap()` is unreachable and neither `isize` addition overflows. -/
+theorem width_value_never_panics (arg : Str) (tw : Nat) (htw : tw ≤ isizeMax) :
+    isPanic (parseWidthSpecifier arg tw) = false := by
+  rcases parseWidthSpecifier_total arg tw htw with ⟨n, hn, _⟩ | he
+  · rw [hn]; rfl
+  · rw [he]; rfl
+
+example : parseWidthSpecifier " 50 - 3 ".toList 80 = .ok 47 := by decide
+example : parseWidthSpecifier "-9223372036854775808".toList 80 = .error badWidth := by decide
+
+/-- the hypothesis on the terminal width is needed: `terminal_width as isize` is negative beyond `isize::MAX` -/
+theorem width_needs_terminal_width_in_isize :
+    isPanic (parseWidthSpecifier "-1".toList 9223372036854775808) = true := by decide
+
+/-- … and the accepted width always fits `isize` (so the panel arithmetic below starts from a sane number). -/
+theorem width_value_fits_isize (arg : Str) (tw n : Nat) (htw : tw ≤ isizeMax)
+    (h : parseWidthSpecifier arg tw = .ok n) : n ≤ isizeMax := by
+  rcases parseWidthSpecifier_total arg tw htw with ⟨m, hm, hle⟩ | he
+  · rw [hm] at h; cases h; exact hle
+  · rw [he] at h; cases h
+
+/-- `--wrap-max-lines`: of all argument texts only the decimal text of `usize::MAX` (with or without `+`, with
+leading zeros) can make `adapt_wrap_max_lines_argument` panic; everything else is a number of lines, "no limit", or a
+clean refusal. -/
+theorem wrap_max_lines_panics_only_at_usize_max (arg : Str) (m : String)
+    (h : adaptWrapMaxLines arg = .error (.panic m)) : parseUsize arg = some usizeMax := by
+  rcases adaptWrapMaxLines_cases arg with ⟨n, hn⟩ | ⟨f, hf⟩ | hmax
+  · rw [hn] at h; cases h
+  · rw [hf] at h; cases h
+  · exact hmax
+
+example : adaptWrapMaxLines "unlimited".toList = .ok 0 ∧ adaptWrapMaxLines "+7".toList = .ok 8 ∧
+    adaptWrapMaxLines "-1".toList = .error (.fatal "Invalid wrap-max-lines argument") := by decide
+
+/-- At `usize::MAX` it does panic as long as the source adds with `+` (the pinned tree: `attempt to add with overflow`,
+known finding); the left alternative holds once the addition saturates (`notes/fix-wrap-max-lines-overflow.diff`). -/
+theorem wrap_max_lines_at_usize_max :
+    (range [(0, usizeMax)] wrapMaxLinesArith).isSome = true ∨
+      isPanic (adaptWrapMaxLines "18446744073709551615".toList) = true := by decide
+
+/-- … and with an addition that cannot overflow no argument text panics. -/
+theorem wrap_max_lines_never_panics (hfix : (range [(0, usizeMax)] wrapMaxLinesArith).isSome = true) (arg : Str) :
+    isPanic (adaptWrapMaxLines arg) = false := by
+  unfold adaptWrapMaxLines
+  split
+  · rfl
+  · split
+    · rfl
+    · rename_i n hn
+      obtain ⟨v, hv⟩ := eval_ok_of_range (inEnv1 (Nat.zero_le n) (parseUsize_le hn)) _ hfix
+      rw [hv]; rfl
+
+example : (range [(0, usizeMax)] (.satAdd (.var 0) (.lit 1))).isSome = true := by decide
+
+/-- `max_line_length` in side-by-side mode (`config_max_line_length`): for every `--max-line-length`, every terminal up
+to 65535 columns and every line limit up to 10^12 none of the multiplications / additions overflows. -/
+theorem max_line_length_no_overflow (maxLines maxLineLength tw : Nat) (h1 : maxLines ≤ 1000000000000)
+    (h2 : maxLineLength ≤ usizeMax) (h3 : tw ≤ 65535) :
+    ∃ v, configMaxLineLength maxLines maxLineLength tw = .ok v :=
+  configMaxLineLength_ok (B := 1000000000000) (W := 65535) (by decide) maxLines maxLineLength tw h1 h2 h3
+
+example : configMaxLineLength 6 100 80 = .ok 300 := by decide
+
+/-- The bound on the line limit is needed on the pinned tree: `--side-by-side --wrap-max-lines 100000000000000000`
+multiplies beyond `usize` (known finding); the left alternative holds once the arithmetic saturates. -/
+theorem max_line_length_overflows_for_huge_limits :
+    rangeArms [(0, usizeMax), (0, usizeMax), (0, usizeMax)] configMaxLineLengthArms = true ∨
+      isPanic (configMaxLineLength 100000000000000001 3000 80) = true := by decide
+
+/-- … and with saturating arithmetic it never does, for any three `usize` values. -/
+theorem max_line_length_never_panics
+    (hfix : rangeArms [(0, usizeMax), (0, usizeMax), (0, usizeMax)] configMaxLineLengthArms = true)
+    (maxLines maxLineLength tw : Nat) (h1 : maxLines ≤ usizeMax) (h2 : maxLineLength ≤ usizeMax) (h3 : tw ≤ usizeMax) :
+    ∃ v, configMaxLineLength maxLines maxLineLength tw = .ok v :=
+  configMaxLineLength_ok hfix maxLines maxLineLength tw h1 h2 h3
+
+/-- Side-by-side panel widths (`new_sbs`, `sbs_odd_fix`): for every width (`--width N`, the terminal's, or `variable`)
+and either fill method the division and the `+ 1` of the odd-width correction are panic free. -/
+theorem panels_never_overflow (w : Width) (tw : Nat) (ansi : Bool) (hw : ∀ n, w = .fixed n → n ≤ usizeMax)
+    (htw : tw ≤ usizeMax) : ∃ p0 p, newSbs w tw = .ok p0 ∧ sbsOddFix w ansi p0 = .ok p :=
+  panels_total w tw ansi hw htw
+
+example : newSbs (.fixed 51) 80 = .ok ⟨25, 25⟩ ∧ sbsOddFix (.fixed 51) true ⟨25, 25⟩ = .ok ⟨25, 26⟩ := by decide
+
+/-- `--tabs N`: `TabCfg::new` panics ("capacity overflow") exactly when the replacement string would exceed
+`isize::MAX` bytes; below that it *allocates* N bytes (a huge N is a runaway allocation: known finding). -/
+theorem tabs_capacity_overflow_iff (n : Nat) : isPanic (tabCfgNew n) = true ↔ isizeMax < n * tabUnitBytes :=
+  tabCfgNew_panics_iff n
+
+example : isPanic (tabCfgNew 18446744073709551615) = true ∧ tabCfgNew 8 = .ok 8 := by decide
+
+/-- the line-number format strings are refused with a message at worst (the parser's own theorems: C17) -/
+theorem line_number_format_never_panics (s : Str) : isPanic (lineNumberFormat s) = false :=
+  lineNumberFormat_not_panic s
+
+/-- the model runs the steps in the order `Config::from` does (first call of each, regenerated) -/
+theorem config_from_order_as_modelled : configFromOrder = modelledOrder ∧ widthBeforeConfigFrom = true := by decide
+
+/-- **`startup_never_panics`**: for every text given to `--width`, `--wrap-max-lines`, the two line-number formats,
+every `--max-line-length`, both layouts and fill methods, on every terminal of at most 65535 columns: start-up
+(`set_widths_and_isatty`, then the modelled steps of `Config::from` in source order) ends normally or with `fatal`
+— never with a panic — provided the width asked for is at most 65535 columns too, `--wrap-max-lines`, when it is a
+number, is below 10^12, and the tab replacement fits `isize`. All three provisos are needed on the pinned tree
+(`huge_width_overflows_side_by_side`, `wrap_max_lines_at_usize_max`, `max_line_length_overflows_for_huge_limits`,
+`tabs_capacity_overflow_iff`). -/
+theorem startup_never_panics (o : Opts) (tw : Nat) (htw : tw ≤ 65535)
+    (hwid : ∀ n, setWidths o.width tw = .ok (.fixed n) → n ≤ 65535)
+    (hwrap : ∀ n, parseUsize o.wrapMaxLines = some n → n < 1000000000000)
+    (hm : o.maxLineLength ≤ usizeMax) (htabs : o.tabs * tabUnitBytes ≤ isizeMax) :
+    isPanic (startup o tw) = false :=
+  startup_not_panic o tw 999999999999 1000000000000 65535 (by have : (65535 : Nat) ≤ isizeMax := by decide
+                                                              omega) htw hwid
+    (fun n hn => by have := hwrap n hn; omega) ⟨1, by decide⟩ (by decide) (by decide) hm htabs
+
+example : startup { width := some " 50 - 3 ".toList, wrapMaxLines := "5".toList, maxLineLength := 100, sideBySide := true } 80
+    = .ok ⟨.fixed 47, 6, ⟨23, 24⟩, (if maxLineLengthUsesViewWidth then 172 else 300), 8⟩ := by decide +kernel
+example : parseUsize "999999999999".toList = some 999999999999 := by decide
+
+/-- The proviso on the width is needed where the limit is derived from `--width` (pinned tree since 3831e3a):
+`--side-by-side --width 9223372036854775807` multiplies beyond `usize` at start-up (known finding). The other
+alternatives: the arithmetic saturates, or the limit is derived from the terminal width. -/
+theorem huge_width_overflows_side_by_side :
+    rangeArms [(0, usizeMax), (0, usizeMax), (0, usizeMax)] configMaxLineLengthArms = true ∨
+      maxLineLengthUsesViewWidth = false ∨
+      isPanic (startup { width := some "9223372036854775807".toList, sideBySide := true } 80) = true := by
+  decide +kernel
+
+/-- With saturating arithmetic in `adapt_wrap_max_lines_argument` and `config_max_line_length` the provisos on
+`--width` and `--wrap-max-lines` disappear: only the allocation of the tab replacement remains. -/
+theorem startup_never_panics_when_saturating
+    (h1 : (range [(0, usizeMax)] wrapMaxLinesArith).map Prod.snd = some usizeMax)
+    (h2 : rangeArms [(0, usizeMax), (0, usizeMax), (0, usizeMax)] configMaxLineLengthArms = true)
+    (o : Opts) (tw : Nat) (htw : tw ≤ isizeMax) (hm : o.maxLineLength ≤ usizeMax)
+    (htabs : o.tabs * tabUnitBytes ≤ isizeMax) : isPanic (startup o tw) = false := by
+  have hex : ∃ lo, range [(0, usizeMax)] wrapMaxLinesArith = some (lo, usizeMax) := by
+    match hr : range [(0, usizeMax)] wrapMaxLinesArith, h1 with
+    | some (lo, hi), h1 => simp only [Option.map_some, Option.some.injEq] at h1; subst h1; exact ⟨lo, rfl⟩
+  have hi64 : isizeMax ≤ usizeMax := by decide
+  exact startup_not_panic o tw usizeMax usizeMax usizeMax htw (by omega)
+    (fun n hn => by have := setWidths_fixed_le o.width tw n htw hn; omega)
+    (fun n hn => parseUsize_le hn) hex (by decide) h2 hm htabs
+
+example : (range [(0, usizeMax)] (.satAdd (.var 0) (.lit 1))).map Prod.snd = some usizeMax := by decide
+
+end C03.StartUp
